@@ -486,9 +486,10 @@ def correspondence(ctx):
 
 
 if __name__ == "__main__":
+    import translate_c14
     common.run_check(
         "C14", module="Bermuda.Properties.C14", driver_targets=["drv_c14"],
-        correspondence=correspondence, level="translation_validation",
+        correspondence=correspondence, level="translation_validation", extra_translate=translate_c14.regenerate,
         rule="CSV: random triangles, 1-4 slices each differing from the first in exactly one of the eight metadata "
              "attributes (string or numeric detail / loss-detail values, added or removed keys); cumulative all-scalar "
              "(int/float, differing field sets, occasional size-1 array), cumulative all-sample (2-4 samples, int64/float64), "
@@ -506,5 +507,7 @@ if __name__ == "__main__":
                      "numbers come back as floats; size-1 / 0-d arrays are compared as their scalar",
                      "Matrix: cumulative triangles; development lags congruent modulo min(period, evaluation) resolution"],
         trusted=["pandas read_csv / to_csv / DataFrame construction / groupby(sort, dropna=False) semantics",
+                 "harness/translate_c14.py (group-by key lists observed on probe frames through a recording wrapper "
+                 "around DataFrame.groupby, regenerated under the build lock each run)",
                  "numpy float formatting"],
     )
